@@ -36,6 +36,15 @@ def W(m, p, q):
                m.distance_fn(sg.nodes[p].features, sg.nodes[q].features))
 
 
+def W_terms(m, p, q):
+    """the uninterpreted applications inside W(m, p, q) (trigger terms for clauses about arc weights)"""
+    import z3
+    t = W(m, p, q)
+    if z3.is_app(t) and t.decl().kind() == z3.Z3_OP_ITE:
+        return [t.arg(1), t.arg(2)]
+    return [t]
+
+
 def metric_hyp(symmetric=True):
     """hypotheses of the properties on the dissimilarity: finite (< FLOAT_MAX), non-negative, symmetric.
     Stated on the uninterpreted DFN / PRE for ALL arguments; on real objects (run-time twin) they are the
